@@ -7,6 +7,10 @@ from xml.etree import ElementTree as ET
 CAT_ORDER = ["ECU-SHARED-DATA", "PROTOCOL", "FUNCTIONAL-GROUP", "BASE-VARIANT", "ECU-VARIANT"]
 CAT_TAG = {"ECU-SHARED-DATA": "ECU-SHARED-DATAS", "FUNCTIONAL-GROUP": "FUNCTIONAL-GROUPS",
            "BASE-VARIANT": "BASE-VARIANTS", "ECU-VARIANT": "ECU-VARIANTS"}
+# DiagLayerType.inheritance_priority (checked against the live enum by the obligation `prio-table-matches-live-enum`)
+PRIO = {"PROTOCOL": 1, "FUNCTIONAL-GROUP": 2, "BASE-VARIANT": 3, "ECU-VARIANT": 4, "ECU-SHARED-DATA": 100}
+# categories subject to value inheritance that the generator fills
+INHERITED = ["dops", "structs", "eopfs", "muxs", "tables", "services"]
 # classes (as far as reference resolution asks for them) per generated object kind
 CLS = {
     "dop": ["DataObjectProperty", "DopBase"],
@@ -77,6 +81,21 @@ def frag_of_layer(L):
     return [(L["cont"], "CONTAINER"), (L["name"], "LAYER")]
 
 
+def new_layer(g, name, kind, cont):
+    """`parents`: the PARENT-REF links in PARENT-REFS order, `parent_layers`: the names of the layers they mean"""
+    return {"name": name, "kind": kind, "cont": cont, "uid": g.new_uid(), "imports": [], "parents": [], "parent_layers": [],
+            "dops": [], "structs": [], "eopfs": [], "muxs": [], "tables": [], "requests": [], "pos": [], "neg": [],
+            "services": [], "dcrefs": []}
+
+
+def layer_named(g, name):
+    return next(x for x in g.layers if x["name"] == name)
+
+
+def layer_ref_obj(P):
+    return {"uid": P["uid"], "kind": "layer", "id": P["name"], "sn": P["name"]}
+
+
 # ---------------------------------------------------------------- generation
 
 def gen_database(rng, profile):
@@ -96,9 +115,7 @@ def gen_database(rng, profile):
         # CONTAINER and LAYER fragments then differ only in their doc type
         twin = rng.randrange(len(kinds)) if rng.random() < 0.5 else -1
         for ki, k in enumerate(kinds):
-            L = {"name": cname if ki == twin else lnames[li], "kind": k, "cont": cname, "uid": g.new_uid(), "imports": [], "parent": None,
-                 "dops": [], "structs": [], "eopfs": [], "muxs": [], "tables": [], "requests": [], "pos": [], "neg": [],
-                 "services": [], "dcrefs": []}
+            L = new_layer(g, cname if ki == twin else lnames[li], k, cname)
             li += 1
             cont["layers"].append(L)
             g.layers.append(L)
@@ -158,27 +175,40 @@ def gen_database(rng, profile):
         for _ in range(rng.choice([1, 1, 2])):
             L["services"].append(g.obj("service", ids["s"].pop(), nm("s", svn)))
         L["_ids"] = ids
-    # 2. structure of the hierarchy: parents (earlier layers only => acyclic), imports
+    # 2. structure of the hierarchy: 0-3 parents of a lower category (=> acyclic; the graph branches and joins: several
+    #    PARENT-REFs per layer in any order of categories, the same ancestor over several paths), imports.
+    #    Layers are visited parents-first so that what a candidate parent offers is already known.
     esds = [L for L in g.layers if L["kind"] == "ECU-SHARED-DATA"]
-    for i, L in enumerate(g.layers):
+    for L in sorted(g.layers, key=lambda x: CAT_ORDER.index(x["kind"])):
         if L["kind"] == "ECU-SHARED-DATA":
             continue
         ok = {"ECU-VARIANT": ["BASE-VARIANT", "FUNCTIONAL-GROUP", "ECU-SHARED-DATA"],
               "BASE-VARIANT": ["FUNCTIONAL-GROUP", "ECU-SHARED-DATA"],
               "FUNCTIONAL-GROUP": ["ECU-SHARED-DATA"]}[L["kind"]]
-        # (an ECU-SHARED-DATA with two equally named objects in one list cannot be inherited from: that conflict is
-        #  raised by the value-inheritance code, which is C09's subject)
-        def dups(P):
-            return any(len({o["sn"] for o in P[k]}) < len(P[k]) for k in ("dops", "structs", "eopfs", "muxs", "tables", "services"))
-        cands = [P for P in g.layers if P is not L and P["kind"] in ok and CAT_ORDER.index(P["kind"]) < CAT_ORDER.index(L["kind"])
-                 and not (P["kind"] == "ECU-SHARED-DATA" and dups(P))]
+        cands = [P for P in g.layers if P is not L and P["kind"] in ok and CAT_ORDER.index(P["kind"]) < CAT_ORDER.index(L["kind"])]
         if cands and rng.random() < 0.6:
-            P = rng.choice(cands)
-            L["parent"] = make_ref(g, L, ("layer", P, {"uid": P["uid"], "kind": "layer", "id": P["name"], "sn": P["name"]}), key=f"{L['name']}.parent", exp=None, fault_ok=False)
-            L["parent_layer"] = P["name"]
+            want = min(len(cands), rng.choice(profile.get("n_parents", [1, 1, 2, 2, 3])))
+            for P in rng.sample(cands, len(cands)):          # PARENT-REFS order = sampling order
+                if len(L["parent_layers"]) >= want:
+                    break
+                # (an inheritance conflict -- two different objects of one short name offered by parents of the same
+                #  priority and not overridden locally, e.g. by an ECU-SHARED-DATA with two equally named objects in one
+                #  list -- is raised by the value-inheritance code, which is C09's subject: such a parent is not taken)
+                L["parent_layers"].append(P["name"])
+                if not hierarchy_ok(g, L):
+                    L["parent_layers"].pop()
+                    g.features.add("steer:conflicting-parent-skipped")
+                    continue
+                L["parents"].append(make_ref(g, L, ("layer", P, layer_ref_obj(P)), key=f"{L['name']}.parent{len(L['parents'])}",
+                                             exp=None, fault_ok=False))
+            if len(L["parents"]) > 1:
+                g.features.add("multi-parent")
+    for L in g.layers:
+        if L["kind"] == "ECU-SHARED-DATA":
+            continue
         if esds and rng.random() < profile.get("imports", 0.5):
             for S in rng.sample(esds, rng.choice([1, 1, 2]) if len(esds) > 1 else 1):
-                r = make_ref(g, L, ("layer", S, {"uid": S["uid"], "kind": "layer", "id": S["name"], "sn": S["name"]}), key=f"{L['name']}.import", exp="DiagLayer", fault_ok=False)
+                r = make_ref(g, L, ("layer", S, layer_ref_obj(S)), key=f"{L['name']}.import", exp="DiagLayer", fault_ok=False)
                 L["imports"].append({"rid": r["rid"], "docref": r["docref"], "target": S["name"]})
             g.features.add("imports")
     if rng.random() < profile.get("bad_import", 0.0):
@@ -316,22 +346,65 @@ def own_ref(g, L, o, key, exp):
     return {"key": key, "mode": "link", "rid": o["id"], "docref": None, "exp": exp}
 
 
+class Conflict(Exception):
+    """two different objects of one short name offered by parents of the same (highest) priority, not overridden locally"""
+
+
+def local_objs(L, pool):
+    if pool == "services":   # the diag-comms a layer defines: inline services + the targets of its DIAG-COMM-REFs
+        return list(L["services"]) + [r["_obj"] for r in L["dcrefs"]]
+    return list(L[pool])
+
+
 def visible_py(g, L, pool):
-    """independent reading of value inheritance for single-parent chains: local objects override
-    inherited ones of the same short name; ECU-SHARED-DATA: local objects only"""
-    loc = list(L[pool])
+    """independent (declarative) reading of value inheritance for a hierarchy that branches: a layer sees its local
+    objects and, for every other short name, the object offered under that name by the parents of the highest
+    inheritance priority among those offering it (ECU-SHARED-DATA 100 > ECU-VARIANT > BASE-VARIANT >
+    FUNCTIONAL-GROUP > PROTOCOL), whatever the order of the PARENT-REFs; what a parent offers is what it sees itself.
+    ECU-SHARED-DATA: local objects only. Several local objects of one name: the last one is the layer's."""
+    loc = local_objs(L, pool)
     if L["kind"] == "ECU-SHARED-DATA":
         return loc
-    inh = []
-    if L.get("parent_layer"):
-        P = next(x for x in g.layers if x["name"] == L["parent_layer"])
-        inh = visible_py(g, P, pool)
-    d = {}
-    for o in inh:
-        d.setdefault(o["sn"], o)
+    own = {}
     for o in loc:
-        d[o["sn"]] = o
-    return list(d.values())
+        own[o["sn"]] = o
+    offers = {}
+    for pn in L["parent_layers"]:
+        P = layer_named(g, pn)
+        for o in visible_py(g, P, pool):
+            if o["sn"] not in own:
+                offers.setdefault(o["sn"], []).append((PRIO[P["kind"]], o))
+    out = list(own.values())
+    for name, offs in offers.items():
+        top = max(p for p, _ in offs)
+        objs = {o["uid"]: o for p, o in offs if p == top}
+        if len(objs) > 1:
+            raise Conflict(f"{L['name']}: {name}")
+        out.extend(objs.values())
+    return out
+
+
+def hierarchy_ok(g, L):
+    """generator-side steering: no inheritance conflict in what L sees (all inherited categories)"""
+    try:
+        for pool in INHERITED:
+            visible_py(g, L, pool)
+        return True
+    except Conflict:
+        return False
+
+
+def ancestors(g, T):
+    """T and every layer reachable from it over PARENT-REFs (through any parent of any layer on the way), each once"""
+    out, todo = [], [T]
+    while todo:
+        X = todo.pop(0)
+        if any(X is y for y in out):
+            continue
+        out.append(X)
+        if X["kind"] != "ECU-SHARED-DATA":
+            todo.extend(layer_named(g, pn) for pn in X["parent_layers"])
+    return out
 
 
 def make_snref(g, L, pools, key, exp, items=None):
@@ -470,7 +543,11 @@ def fill_references(g, L):
             own_names = {s["sn"] for s in L["services"]} | {d["_sn"] for d in L["dcrefs"]}
             if o is not None and o.get("kind") == "service" and o["sn"] not in own_names and not any(x is o for x in L["services"]):
                 ref["_sn"] = o["sn"]
+                ref["_obj"] = o
                 L["dcrefs"].append(ref)
+                # ... nor may the additional diag-comm collide with what another parent of a derived layer offers
+                if not all(hierarchy_ok(g, X) for X in g.layers):
+                    L["dcrefs"].pop()
 
 
 # ---------------------------------------------------------------- XML
@@ -558,9 +635,8 @@ def x_layer(L, with_imports=True):
         out.append("<NEG-RESPONSES>" + "".join(f'<NEG-RESPONSE ID="{r["id"]}"><SHORT-NAME>{r["sn"]}</SHORT-NAME>{x_params(r)}</NEG-RESPONSE>' for r in L["neg"]) + "</NEG-RESPONSES>")
     if L["imports"] and with_imports:
         out.append("<IMPORT-REFS>" + "".join(x_ref("IMPORT-REF", r) for r in L["imports"]) + "</IMPORT-REFS>")
-    if L["parent"]:
-        P = L["parent"]
-        out.append("<PARENT-REFS>" + x_ref("PARENT-REF", P) + "</PARENT-REFS>")
+    if L["parents"]:
+        out.append("<PARENT-REFS>" + "".join(x_ref("PARENT-REF", P) for P in L["parents"]) + "</PARENT-REFS>")
     out.append(f'</{L["kind"]}>')
     return "".join(out)
 
@@ -627,7 +703,8 @@ def all_refs(L, with_imports=True):
         add(r)
     for o in L["requests"] + L["pos"] + L["neg"]:
         add_params(o)
-    add(L["parent"])
+    for P in L["parents"]:
+        add(P)
     # the snref pass visits ddds (structures, fields, muxs, tables), then requests/responses; mux: default before cases
     return links, sns
 
@@ -676,9 +753,9 @@ def s_layer(L, with_imports=True):
     lrs = " ".join(f'(lr {r["key"]} {s_ref(L, r)} {r["exp"] or "-"})' for r in links)
     srs = " ".join(f'(sr {r["key"]} {r["name"]} ({" ".join(r["pools"])}) ({" ".join(s_obj(p) for p in (r["items"] or []))}) {r["exp"] or "-"})' for r in sns)
     locs = " ".join(f'({p} {" ".join(s_obj(o) for o in L[p])})' for p in ["dops", "structs", "eopfs", "muxs", "tables"])
-    parent = L["parent"]["key"] if L["parent"] else "-"
+    parents = " ".join(P["key"] for P in L["parents"])
     return (f'(layer (obj {s_obj({"uid": L["uid"], "kind": "layer", "sn": L["name"]})}) (frags {s_frags(fr)}) '
-            f'(esd {"t" if L["kind"] == "ECU-SHARED-DATA" else "f"}) (links {ents}) (imports {imps}) (parent {parent}) '
+            f'(esd {"t" if L["kind"] == "ECU-SHARED-DATA" else "f"}) (links {ents}) (imports {imps}) (parents ({parents})) (prio {PRIO[L["kind"]]}) '
             f'(refs {lrs}) (snrefs {srs}) (locals {locs}))')
 
 
@@ -816,8 +893,8 @@ class Extract:
                 get(r["key"], lambda pl=pl, i=i, n_inline=n_inline: list(pl.diag_layer_raw.diag_comms)[n_inline + i])
             for o in L["requests"] + L["pos"] + L["neg"]:
                 params(o)
-            if L["parent"]:
-                get(L["parent"]["key"], lambda pl=pl: pl.diag_layer_raw.parent_refs[0]._layer)
+            for i, P in enumerate(L["parents"]):
+                get(P["key"], lambda pl=pl, i=i: pl.diag_layer_raw.parent_refs[i]._layer)
         return out
 
     def dump_links(self, linkdb):
@@ -826,3 +903,82 @@ class Extract:
         for frag, d in linkdb._db.items():
             parts.append(f"(frag {frag.doc_name} {frag.doc_type.value}" + "".join(f" ({k} {self.u(v)})" for k, v in d.items()) + ")")
         return "(db" + "".join(" " + p for p in parts) + ")"
+
+
+# ---------------------------------------------------------------- enumerated small scope: hierarchies that branch
+
+ENUM_SCOPES = {
+    # name: layers (short name, category) in document order
+    "FGBE": [("F", "FUNCTIONAL-GROUP"), ("G", "FUNCTIONAL-GROUP"), ("B", "BASE-VARIANT"), ("E", "ECU-VARIANT")],
+    "SFBE": [("S", "ECU-SHARED-DATA"), ("F", "FUNCTIONAL-GROUP"), ("B", "BASE-VARIANT"), ("E", "ECU-VARIANT")],
+    "SFGBE": [("S", "ECU-SHARED-DATA"), ("F", "FUNCTIONAL-GROUP"), ("G", "FUNCTIONAL-GROUP"), ("B", "BASE-VARIANT"),
+              ("E", "ECU-VARIANT")],
+}
+
+
+def enum_hierarchies(scope):
+    """every inheritance graph over the layers of the scope (each subset of the PARENT-REFs ODX allows: a parent is of
+    a lower category) x every subset of the layers defining a DOP of the one short name `X` x both listing orders of
+    the PARENT-REFs. Every layer in whose own view `X` is visible owns a request with a DOP-SNREF `X` (+ a service
+    using it), so that each database has a short-name reference at every position of the graph and an overriding
+    definition at every position. Combinations with an inheritance conflict (C09's subject) are skipped.
+    Yields (tag, Gen)."""
+    import itertools
+    import random
+    spec = ENUM_SCOPES[scope]
+    names = [n for n, _ in spec]
+    kind = dict(spec)
+    edges = [(c, p) for c in names for p in names
+             if kind[c] != "ECU-SHARED-DATA" and CAT_ORDER.index(kind[p]) < CAT_ORDER.index(kind[c])]
+    for emask in range(1 << len(edges)):
+        chosen = [e for i, e in enumerate(edges) if emask >> i & 1]
+        if not chosen:
+            continue
+        for dmask in range(1 << len(names)):
+            for rev in (False, True):
+                if rev and not any(sum(1 for c, _ in chosen if c == n) > 1 for n in names):
+                    continue     # no layer with two parents: the listing order does not exist
+                g = Gen(random.Random(0), {})
+                cont = {"name": "C1", "uid": g.new_uid(), "layers": []}
+                g.containers = [cont]
+                for n in names:
+                    X = new_layer(g, n, kind[n], "C1")
+                    cont["layers"].append(X)
+                    g.layers.append(X)
+                    if dmask >> names.index(n) & 1:
+                        X["dops"].append(g.obj("dop", f"{n}_d", "X"))
+                ok = True
+                for X in g.layers:
+                    ps = [p for c, p in chosen if c == X["name"]]
+                    if rev:
+                        ps.reverse()
+                    for p in ps:
+                        P = layer_named(g, p)
+                        X["parent_layers"].append(p)
+                        X["parents"].append({"key": f"{X['name']}.parent{len(X['parents'])}", "mode": "link", "rid": p,
+                                             "docref": None, "exp": None})
+                    if not hierarchy_ok(g, X):
+                        ok = False
+                        break
+                if not ok:
+                    yield (scope, emask, dmask, rev), None
+                    continue
+                n_refs = 0
+                for X in g.layers:
+                    if sum(1 for o in visible_py(g, X, "dops") if o["sn"] == "X") != 1:
+                        continue
+                    rq = dict(g.obj("request", f"{X['name']}_r", "Rq"), params=[])
+                    rq["params"].append({"uid": g.new_uid(), "kind": "param", "sn": "q0", "ptype": "VALUE",
+                                         "dop_ref": {"key": f"{X['name']}.request.q0.dop", "mode": "sn", "name": "X",
+                                                     "pools": ALL_DOPS, "exp": "DopBase", "items": None}})
+                    X["requests"].append(rq)
+                    sv = g.obj("service", f"{X['name']}_s", f"Sv{X['name']}")
+                    sv.update(request=own_ref(g, X, rq, f"{X['name']}.service.request", "Request"), pos=[], neg=[])
+                    X["services"].append(sv)
+                    n_refs += 1
+                if n_refs == 0:
+                    continue
+                g.features |= {"enum", "form:snref"}
+                if any(len(X["parents"]) > 1 for X in g.layers):
+                    g.features.add("multi-parent")
+                yield (scope, emask, dmask, rev), g
